@@ -3,7 +3,7 @@
    computation for every kind and key kind. Show_js_proofs.v lifts them to
    every descriptor and value. *)
 From Coq Require Import List NArith Bool Lia.
-From Verif Require Import Bytes ShowTree Facts_show ShowTypesM ShowJsonM ShowTree_proofs.
+From Verif Require Import Bytes ShowTree Facts_show ShowTypesM ShowJsonM ShowLeavesM Json ShowSpecM ShowTree_proofs.
 Import ListNotations.
 Open Scope N_scope.
 
@@ -48,12 +48,43 @@ Section Checks.
       forallb (fun kd => key_paths_ok (key_asg_pos ss) kd) (below n_kinds) && nil_key_ok
     else key_paths_ok (key_asg ss) kk.
 
+  (* the head of the spec (trusted text, time, error, plain value) as decided along a run time path:
+     None when the path did not decide one of the flags it needs *)
+  Definition head_atoms : list (atom * hcase) :=
+    match f with
+    | FJS => [(AIs PSelf w_JS, HTrusted w_JS); (AImpl PSelf i_JSStringer, HTrusted i_JSStringer);
+              (AImpl PSelf i_JSEnvStringer, HTrusted i_JSEnvStringer); (AIs PSelf w_Time, HTime); (AImpl PSelf i_Error, HError)]
+    | FJSON => [(AIs PSelf w_JSON, HTrusted w_JSON); (AImpl PSelf i_JSONStringer, HTrusted i_JSONStringer);
+                (AImpl PSelf i_JSONEnvStringer, HTrusted i_JSONEnvStringer); (AIs PSelf w_Time, HTime); (AImpl PSelf i_Error, HError)]
+    end.
+
+  Fixpoint head_walk (sd : asg) (l : list (atom * hcase)) : option hcase :=
+    match l with
+    | [] => Some HPlain
+    | (a, h) :: r =>
+      match asg_get sd a with
+      | Some true => Some h
+      | Some false => head_walk sd r
+      | None => None
+      end
+    end.
+
+  Definition hcase_eqb (a b : hcase) : bool :=
+    match a, b with
+    | HTrusted c, HTrusted d => c =? d
+    | HTime, HTime | HError, HError | HPlain, HPlain => true
+    | _, _ => false
+    end.
+
+  Definition head_is (sd : asg) (h : hcase) : bool :=
+    match head_walk sd head_atoms with Some h' => hcase_eqb h' h | None => false end.
+
   (* the clause c of the kind switch is the right one for the kind, and the checker looked at the components *)
   Definition class_req (kind kk : N) (ss sd : asg) (c : N) : bool :=
     if c =? k_Bool then kind =? k_Bool
     else if c =? k_Int then (k_Int <=? kind) && (kind <=? k_Int64)
     else if c =? k_Uint then (k_Uint <=? kind) && (kind <=? k_Uintptr)
-    else if (c =? k_Float32) || (c =? k_Float64) then (kind =? k_Float32) || (kind =? k_Float64)
+    else if (c =? k_Float32) || (c =? k_Float64) then kind =? c
     else if c =? k_String then kind =? k_String
     else if c =? k_Slice then (kind =? k_Slice) && elem_ok ss
     else if c =? k_Array then (kind =? k_Array) && elem_ok ss
@@ -65,9 +96,10 @@ Section Checks.
   Definition q_node (kind kk : N) (ss : asg) (pd : asg * outcome) : bool :=
     asg_true ss AVisited ||
     match snd pd with
-    | OHandled c => negb (c =? 255) && (negb (c =? w_Time) || asg_true (fst pd) (AIs PSelf w_Time))
-    | OClass c true => c =? k_String
-    | OClass c false => class_req kind kk ss (fst pd) c
+    | OHandled c => negb (c =? 255) && (negb (c =? w_Time) || asg_true (fst pd) (AIs PSelf w_Time)) &&
+                    head_is (fst pd) (if c =? w_Time then HTime else HTrusted c)
+    | OClass c true => (c =? k_String) && head_is (fst pd) HError
+    | OClass c false => class_req kind kk ss (fst pd) c && head_is (fst pd) HPlain
     | _ => false
     end.
 
